@@ -15,24 +15,25 @@ CONSTANTS MaxHist, EmitAt
 
 Reqs == {"OPTIONS", "DESCRIBE_ok", "DESCRIBE_missing", "ANNOUNCE_ok", "ANNOUNCE_badsdp", "ANNOUNCE_noctype",
          "SETUP_v_tcp_play", "SETUP_a_tcp_play", "SETUP_v_udp_play", "SETUP_v_tcp_record", "SETUP_a_tcp_record",
-         "SETUP_v_udp_record", "SETUP_v_bad", "PLAY", "RECORD", "PAUSE", "GET_PARAMETER", "TEARDOWN", "FOO"}
+         "SETUP_v_udp_record", "SETUP_v_bad", "SETUP_a_mcast_play", "PLAY", "RECORD", "PAUSE", "GET_PARAMETER", "TEARDOWN", "FOO"}
 
 IsSetup(r) == r \in {"SETUP_v_tcp_play", "SETUP_a_tcp_play", "SETUP_v_udp_play", "SETUP_v_tcp_record", "SETUP_a_tcp_record",
-                     "SETUP_v_udp_record", "SETUP_v_bad"}
+                     "SETUP_v_udp_record", "SETUP_v_bad", "SETUP_a_mcast_play"}
 SetupMode(r) == IF r \in {"SETUP_v_tcp_record", "SETUP_a_tcp_record", "SETUP_v_udp_record"} THEN "record" ELSE "play"
 SetupTr(r) == IF r \in {"SETUP_v_udp_play", "SETUP_v_udp_record"} THEN "udp" ELSE "tcp"
 
 VARIABLES st,    \* "init" | "ready" | "playing" | "recording" | "closed" | "open" (undecided after a refused SETUP)
           sdp,   \* "none" | "play" (DESCRIBE succeeded) | "record" (ANNOUNCE succeeded)
           tr,    \* transport of the last successful SETUP: "none" | "tcp" | "udp"
+          dirty, \* a SETUP has been refused in this session: the statement does not say what later SETUPs must answer
           hist
-vars == <<st, sdp, tr, hist>>
+vars == <<st, sdp, tr, dirty, hist>>
 
 (* ---- what the statement requires for request r in the current state ---------- *)
 Exp(r) ==
-  CASE st = "open" -> "any"
-    [] r = "OPTIONS" -> "ok"
+  CASE r = "OPTIONS" -> "ok"
     [] r = "TEARDOWN" -> "ok"
+    [] st = "open" -> "any"
     [] r \in {"PAUSE", "GET_PARAMETER", "FOO"} -> "refuse"                 \* never a legal method here
     [] r \in {"DESCRIBE_ok", "DESCRIBE_missing", "ANNOUNCE_ok", "ANNOUNCE_badsdp", "ANNOUNCE_noctype"} ->
          IF st # "init" THEN "455"
@@ -42,22 +43,27 @@ Exp(r) ==
          ELSE "refuse"
     [] IsSetup(r) ->
          IF st \in {"playing", "recording"} THEN "455"
+         ELSE IF dirty # "no" THEN "any"
          ELSE IF sdp = "none" \/ r = "SETUP_v_bad" THEN "refuse"           \* no description yet / malformed transport
+         ELSE IF r = "SETUP_a_mcast_play" THEN "refuse"                    \* the stream under test has no multicast source
          ELSE IF SetupMode(r) # sdp THEN (IF sdp = "play" THEN "refuse" ELSE "any")   \* record set-up of a described session is refused;
                                                                              \* a SETUP without mode=record in an announced session: left open
          ELSE IF sdp = "record" /\ SetupTr(r) # "tcp" THEN "refuse"        \* recording is TCP only
          ELSE "ok"
-    [] r = "PLAY" -> IF st \in {"ready", "playing"} /\ sdp = "play" /\ tr # "none" THEN "ok" ELSE "455"
-    [] r = "RECORD" -> IF st \in {"ready", "recording"} /\ sdp = "record" /\ tr = "tcp" THEN "ok" ELSE "455"
+    [] r = "PLAY" -> IF st \in {"ready", "playing"} /\ sdp = "play" /\ tr # "none"
+                     THEN (IF dirty # "no" /\ st = "ready" THEN "any" ELSE "ok")     \* a refused SETUP may have left another transport behind
+                     ELSE "455"
+    [] r = "RECORD" -> IF st \in {"ready", "recording"} /\ sdp = "record" /\ tr = "tcp"
+                       THEN (IF dirty # "no" /\ st = "ready" THEN "any" ELSE "ok")
+                       ELSE "455"
 
 (* state after r, given that the answer was of the required class *)
 Do(r) ==
   LET e == Exp(r) IN
-  /\ CASE e = "any" -> st' = "open" /\ UNCHANGED <<sdp, tr>>
+  /\ CASE r = "TEARDOWN" -> st' = "closed" /\ UNCHANGED <<sdp, tr>>
+       [] e = "any" -> st' = "open" /\ UNCHANGED <<sdp, tr>>
        [] e \in {"455"} -> UNCHANGED <<st, sdp, tr>>
-       [] e = "refuse" -> IF IsSetup(r) /\ sdp # "none" /\ st # "open"
-                          THEN st' = "open" /\ UNCHANGED <<sdp, tr>>      \* a refused SETUP may leave a half-parsed transport
-                          ELSE UNCHANGED <<st, sdp, tr>>
+       [] e = "refuse" -> UNCHANGED <<st, sdp, tr>>     \* a refused request is not a step of DESCRIBE -> SETUP -> PLAY / ANNOUNCE -> SETUP -> RECORD
        [] r = "OPTIONS" -> UNCHANGED <<st, sdp, tr>>
        [] r = "TEARDOWN" -> st' = "closed" /\ UNCHANGED <<sdp, tr>>
        [] r = "DESCRIBE_ok" -> sdp' = "play" /\ UNCHANGED <<st, tr>>
@@ -65,17 +71,18 @@ Do(r) ==
        [] IsSetup(r) -> st' = "ready" /\ tr' = SetupTr(r) /\ sdp' = sdp
        [] r = "PLAY" -> st' = "playing" /\ UNCHANGED <<sdp, tr>>
        [] r = "RECORD" -> st' = "recording" /\ UNCHANGED <<sdp, tr>>
+  /\ dirty' = (IF e = "refuse" /\ IsSetup(r) /\ sdp # "none" THEN r ELSE dirty)   \* remembers WHICH set-up was refused last
   /\ hist' = Append(hist, [req |-> r, exp |-> e,
                            frames |-> (st' = "playing" /\ tr' = "tcp"),      \* interleaved media allowed after this answer
                            published |-> (st' = "recording"),                 \* the announced path resolves to a stream
                            consuming |-> (st' = "playing")])                  \* the session holds a consumer of /live
 
-Init == st = "init" /\ sdp = "none" /\ tr = "none" /\ hist = <<>>
+Init == st = "init" /\ sdp = "none" /\ tr = "none" /\ dirty = "no" /\ hist = <<>>
 Next == /\ Len(hist) < MaxHist /\ st # "closed"
         /\ \E r \in Reqs : Do(r)
 
 Emit == (Len(hist) >= EmitAt \/ (st = "closed" /\ Len(hist) > 0)) => PrintT(<<"@H", ToJson(hist)>>)
-View == <<st, sdp, tr>>
+View == <<st, sdp, tr, dirty>>
 EmitEdge == PrintT(<<"@H", ToJson(hist')>>)
 
 (* ---- the statement as invariants of this automaton ------------------------------ *)
